@@ -293,7 +293,7 @@ def run():
     _verif.emit("finish", nout=len(all_decrypted_sessions), nkeys=len(keylog), ntls=len(sessions), nquic=len(quic_sessions), ports=list(server_ports))
     file = open(args.outfile, "wb")
 
-    writer = dpkt.pcapng.Writer(file, snaplen=20000)
+    writer = dpkt.pcapng.Writer(file, snaplen=262144)  # no exported packet is longer (UDP payloads reach 65507 bytes)
 
     for buf, ts in all_decrypted_sessions:
         writer.writepkt(bytes(buf), ts)
